@@ -118,6 +118,15 @@ Record ldrst := mkLdr {
   ld_removelte : N
 }.
 
+(* a TakeSnapshot task in flight: captured by onTakeSnapshot, run by its goroutine
+   (through the state-machine goroutine), reported back through snapTakenCh *)
+Inductive snapdone :=
+| SnapPending                      (* state captured by the state machine, goroutine not yet run *)
+| SnapOk (index : N)               (* snapshot published at this index *)
+| SnapFail (code : N).             (* 1 ErrNoUpdates, 2 ErrSnapshotThreshold *)
+(* sr_index/sr_term: fsm.index/term when the request reached the state machine *)
+Record snapreqst := mkSnapReqSt { sr_tid : N; sr_index : N; sr_term : N; sr_config : config; sr_done : snapdone }.
+
 Record nstate := mkNode_ {
   st_cid : N;
   st_nid : N;
@@ -140,6 +149,7 @@ Record nstate := mkNode_ {
   st_commit : N;
   st_timer : bool;            (* Raft.timer.active *)
   st_snapbusy : bool;         (* snapTakenCh != nil *)
+  st_snapreq : option snapreqst;
   st_closed : bool;           (* isClosed() *)
   (* state machine goroutine *)
   st_fsmidx : N;
@@ -155,7 +165,7 @@ Record nstate := mkNode_ {
 #[export] Instance eta_nstate : Settable _ := settable! mkNode_
   <st_cid; st_nid; st_term; st_voted; st_logprev; st_log; st_flushed; st_lastidx; st_lastterm;
    st_snapidx; st_snapterm; st_snapcfg; st_committed; st_latest; st_role; st_leader; st_commit;
-   st_timer; st_snapbusy; st_closed; st_fsmidx; st_fsmterm; st_aborted; st_votesneeded; st_cndtransfer; st_ldr>.
+   st_timer; st_snapbusy; st_snapreq; st_closed; st_fsmidx; st_fsmterm; st_aborted; st_votesneeded; st_cndtransfer; st_ldr>.
 #[export] Instance eta_ldrst : Settable _ := settable! mkLdr
   <ld_present; ld_voter; ld_numvoters; ld_start; ld_queue; ld_repls; ld_tr_active; ld_tr_term; ld_tr_target;
    ld_tr_resp; ld_tr_newterm; ld_tr_tid; ld_waitstable; ld_removelte>.
